@@ -123,6 +123,14 @@ func (g *Gun) shoot(ammo *Scenario, templateVars map[string]any) error {
 	}
 
 	startAt := time.Now()
+	// min_waiting_time is the minimum execution time of the scenario, also when a step fails and the
+	// scenario is aborted: otherwise a failing target is hit again without any pause.
+	defer func() {
+		spent := time.Since(startAt)
+		if ammo.MinWaitingTime > spent {
+			time.Sleep(ammo.MinWaitingTime - spent)
+		}
+	}()
 	for _, call := range ammo.Calls {
 		tag := ammo.Name + "." + call.Tag
 		sample := netsample.Acquire(tag)
@@ -131,10 +139,6 @@ func (g *Gun) shoot(ammo *Scenario, templateVars map[string]any) error {
 		if err != nil {
 			return err
 		}
-	}
-	spent := time.Since(startAt)
-	if ammo.MinWaitingTime > spent {
-		time.Sleep(ammo.MinWaitingTime - spent)
 	}
 	return nil
 }
